@@ -83,6 +83,44 @@ def run_case(arg):
                 packcase.decode_and_compare(binaries, img, packcase.expected_for(tree, c), tree, c, work, oc, r, cli=False, unpack=False)
                 oc.inc("images")
                 return oc
+            if kind == "huge":
+                # a file that crosses 4 GiB without a sparse block before that point (holes kept by nosparse): the inode must
+                # become an extended one at the crossing; block list of 4096+ entries; fast compressor, 1 MiB blocks
+                size = (4 << 30) + (100, 1048576 + 7, 0)[idx % 3]
+                root = os.path.join(work, "in")
+                os.makedirs(root)
+                with open(os.path.join(root, "big"), "wb") as f:
+                    f.truncate(size)
+                with open(os.path.join(root, "small"), "wb") as f:
+                    f.write(b"small")
+                sf = os.path.join(work, "sort.txt")
+                with open(sf, "w") as f:
+                    f.write("0 [nosparse] big\n")
+                img = os.path.join(work, "out.sqfs")
+                res = core.run_tool([binaries["gensquashfs"], "-q", "-c", ("lz4", "zstd")[idx % 2], "-b", "1048576", "-S", sf, "-D", root, img], timeout=600)
+                oc.features = ("huge", size)
+                oc.sample = {"case": "file of %d bytes, nosparse" % size, "exit": res.rc}
+                if res.san:
+                    oc.violate("c03:" + res.san, "gensquashfs", {"stderr.txt": res.err})
+                    return oc
+                if res.hang or res.rc != 0:
+                    oc.inconclusive.append("pack failed rc=%s %s" % (res.rc, res.err[-200:]))
+                    return oc
+                try:
+                    im = sqfsimg.parse(open(img, "rb").read(), want_content=False)
+                except sqfsimg.ParseError as e:
+                    oc.violate("c03:unparseable", str(e)[:300])
+                    return oc
+                for rule, where, detail in im.problems:
+                    oc.violate("c03:" + rule, "%s %s" % (where, detail))
+                for rule, n in im.evals.items():
+                    oc.inc("rule:" + rule, n)
+                ino = im.tree[b"big"]
+                if ino.size != size or len(ino.block_words) != size // 1048576:
+                    oc.violate("c03:inode.file-size-and-block-count", "size %d blocks %d, expected %d / %d" % (ino.size, len(ino.block_words), size, size // 1048576))
+                oc.inc("images")
+                oc.inc("huge_files")
+                return oc
             if kind == "layout":
                 lk = LAYOUT_KINDS[idx % len(LAYOUT_KINDS)]
                 if lk == "many-frag-blocks":
@@ -132,12 +170,12 @@ def run_case(arg):
 def main(tier):
     rep = core.Report(PROP, tier, "exploration",
                       "each case = one image written by gensquashfs (layout-focused trees: header straddling, far hard links, "
-                      "incompressible metadata/data, deep trees, many fragment blocks, all extended inode types; plus the C01 random generator); "
+                      "incompressible metadata/data, deep trees, many fragment blocks, all extended inode types; a file crossing 4 GiB with its holes stored; plus the C01 random generator); "
                       "distinct = distinct (layout kind, compressor, block size, options) vectors; the validator's rule evaluations are counted per rule")
     build.build("asan")
     nl, nr = (35, 115) if tier == "quick" else (350, 2200)
     items = [("layout", i, tier) for i in range(nl)] + [("dirsize", i, tier) for i in range(len(c01.DIRSIZE_TARGETS))] + \
-        [("random", i, tier) for i in range(nr)]
+        [("random", i, tier) for i in range(nr)] + [("huge", i, tier) for i in range(1 if tier == "quick" else 3)]
     only = os.environ.get("VERIF_ONLY")
     if only:
         k, i = only.split(":")
